@@ -91,6 +91,9 @@ func genStub(t *rapid.T) hx.RecSpec {
 	for i, n := 0, rapid.SampledFrom([]int{1, 1, 1, 2, 3}).Draw(t, "stubStanzas"); i < n; i++ {
 		s.Stanzas = append(s.Stanzas, genStubStanza(t))
 	}
+	if rapid.IntRange(0, 3).Draw(t, "stubAppendsToFileKey") == 0 {
+		s.AppendFK = rapid.SampledFrom([]int{1, 8, 16, 17, 40}).Draw(t, "appendFK")
+	}
 	return hx.RecSpec{Kind: "stub", Stub: s}
 }
 
